@@ -219,6 +219,7 @@ Proof.
   unfold build. destruct t as [docs|n d ents]; [discriminate|].
   destruct (accumulate nonstr (PDir n d ents)) as [m| | |]; cbn [bind]; try discriminate.
   destruct (mapM (hash_res nonstr) m) as [m1| | |]; cbn [bind]; try discriminate.
+  destruct (hash_check m1) as [[]| | |]; cbn [bind]; try discriminate.
   destruct pipe_rules as [rules| | |]; cbn [bind]; try discriminate.
   destruct (nameref_transform pipe_cs nonstr rules m1) as [m2| | |]; cbn [bind]; try discriminate.
   destruct (ignore_local m2) as [m2l| | |]; cbn [bind]; try discriminate.
@@ -426,6 +427,7 @@ Section Ids.
     unfold build. destruct t as [docs|n d ents]; [discriminate|].
     destruct (accumulate nonstr (PDir n d ents)) as [m| | |]; cbn [bind]; try discriminate.
     destruct (mapM (hash_res nonstr) m) as [m1| | |]; cbn [bind]; try discriminate.
+    destruct (hash_check m1) as [[]| | |]; cbn [bind]; try discriminate.
     destruct pipe_rules as [rules| | |]; cbn [bind]; try discriminate.
     destruct (nameref_transform pipe_cs nonstr rules m1) as [m2| | |]; cbn [bind]; try discriminate.
     destruct (ignore_local m2) as [m2l| | |]; cbn [bind]; try discriminate.
@@ -445,6 +447,7 @@ Section Ids.
     intros Ho. unfold build. destruct t as [docs|n d ents]; [discriminate|].
     destruct (accumulate nonstr (PDir n d ents)) as [m| | |] eqn:EA; cbn [bind]; try discriminate.
     destruct (mapM (hash_res nonstr) m) as [m1| | |] eqn:EH; cbn [bind]; try discriminate.
+    destruct (hash_check m1) as [[]| | |]; cbn [bind]; try discriminate.
     destruct pipe_rules as [rules| | |] eqn:ER0; cbn [bind]; try (intros X; discriminate X).
     assert (ER : effective_rules gen_gvk_order_first gen_gvk_order_last gen_nameref_raw = Ok rules)
       by (rewrite <- pipe_rules_eq; exact ER0).
